@@ -60,6 +60,7 @@ type Scenario struct {
 	// NoTeardownChecks: skip leak accounting (scenario manages shutdown itself)
 	Custom func(w *SWorld) []Violation // fully custom body instead of Threads (shutdown scenarios)
 	NoOpen bool                        // the scenario opens its own handles (Setup / threads)
+	ThoroughOnly bool                  // explored in the thorough tier only
 }
 
 type SWorld struct {
@@ -702,6 +703,18 @@ func hashString(s string) uint32 {
 		h *= 16777619
 	}
 	return h
+}
+
+// ScenarioNamesTier is ScenarioNames without the thorough-only scenarios when quick is set.
+func ScenarioNamesTier(quick bool, prefixes ...string) []string {
+	var out []string
+	for _, n := range ScenarioNames(prefixes...) {
+		if quick && scenarios[n].ThoroughOnly {
+			continue
+		}
+		out = append(out, n)
+	}
+	return out
 }
 
 // ScenarioNames returns the registered scenarios whose name starts with one of the prefixes, sorted.
